@@ -99,7 +99,9 @@ def check(ctx: Ctx) -> str:
     ctx.check(ast.unparse(astq.returns(gk.node)[0].value) == "'tmpl_' + sha1(name.encode('utf-8')).hexdigest()", "key:hash", "loaders:ModuleLoader.get_template_key", "key function", "the template key must be tmpl_<sha1 of the name>", gk.loc())
     ld = repo.func("loaders:ModuleLoader.load")
     s = ast.unparse(ld.node)
-    ctx.check("key = self.get_template_key(name)" in s and "module = f'{self.package_name}.{key}'" in s and "from_module_dict(environment, mod.__dict__, globals)" in s, "load:key", "loaders:ModuleLoader.load", "lookup by the same key", "ModuleLoader.load must import <package>.<get_template_key(name)> and build the template from the module dict", ld.loc())
+    imps = [c for c in astq.calls(ld.node) if astq.callee(c) == "__import__" and c.args]
+    imported = ast.unparse(_resolve_local(ld.node, imps[0].args[0], deep=True)) if len(imps) == 1 else ""
+    ctx.check(imported == "f'{self.package_name}.{self.get_template_key(name)}'" and "from_module_dict(environment, mod.__dict__, globals)" in s, "load:key", "loaders:ModuleLoader.load", "lookup by the same key", "ModuleLoader.load must import <package>.<get_template_key(name)> and build the template from the module dict", ld.loc())
     hs = [h for h in ast.walk(ld.node) if isinstance(h, ast.ExceptHandler)]
     ctx.check(len(hs) == 1 and ast.unparse(hs[0].type) == "ImportError" and "TemplateNotFound(name)" in ast.unparse(hs[0]), "load:missing", "loaders:ModuleLoader.load", "missing module", "a missing module must raise TemplateNotFound", ld.loc())
 
@@ -120,6 +122,31 @@ def check(ctx: Ctx) -> str:
     ctx.rule("R4", "namespace ownership: _from_namespace writes the loading environment into the namespace it is given, so every namespace handed to it is fresh per load - a dict literal (from_code) or the dict of a module imported for this load and removed from sys.modules; a lookup of an already loaded module under the name the import system binds it to would share one namespace between environments")
     _namespace_freshness(ctx, repo, ld)
     return __doc__ or ""
+
+
+def _resolve_local(fn: ast.AST, e: ast.AST, deep: bool = False) -> ast.AST:
+    """Follow plain local temporaries (assigned once) to their value; with ``deep`` also inside
+    f-strings, so that the name of a temporary does not matter."""
+    from ..normalize import clone
+
+    def single(name: str) -> ast.AST | None:
+        src = [a for a in ast.walk(fn) if isinstance(a, ast.Assign) and len(a.targets) == 1 and isinstance(a.targets[0], ast.Name) and a.targets[0].id == name]
+        return src[0].value if len(src) == 1 else None
+
+    for _ in range(6):
+        if isinstance(e, ast.Name):
+            v = single(e.id)
+            if v is None:
+                break
+            e = v
+        else:
+            break
+    if deep and isinstance(e, ast.JoinedStr):
+        e = clone(e)
+        for part in e.values:
+            if isinstance(part, ast.FormattedValue):
+                part.value = _resolve_local(fn, part.value, deep=True)
+    return e
 
 
 def _namespace_freshness(ctx: Ctx, repo, ld) -> None:
